@@ -177,6 +177,10 @@ def generate(tier, rng):
   for shape in big:
     yield {'kind': 'B', 'shape': shape, 'seed': rng.randrange(1, 2 ** 30), 'key': rng.randrange(2 ** 31),
            'cseed': rng.randrange(1, 2 ** 30)}
+  # wave 3: argument forms, boundary values, reuse / caller-owned data, interleaving, dtypes, execution contexts
+  for sub in XSUBS:
+    for _ in range(1 if tier == 'quick' else 3):
+      yield {'kind': 'X', 'sub': sub, 'seed': rng.randrange(1, 2 ** 30), 'key': rng.choice([0, rng.randrange(2 ** 31)])}
   for ti, tr in enumerate(TREES):
     for _ in range(1 if tier == 'quick' else 3):
       yield {'kind': 'P', 'tree': ti, 'seed': rng.randrange(1, 2 ** 30), 'key': rng.randrange(2 ** 31)}
@@ -449,8 +453,173 @@ def run_P(case):
     return {'err': _err(ex), 'msg': f'{type(ex).__name__}: {str(ex)[:160]}'}
 
 
+
+# --------------------------------------------------------------------------
+# wave 3 extras (judged by the oracle only): every check is a named boolean
+
+XSUBS = ['forms', 'boundary', 'reuse', 'interleave', 'dtypes', 'contexts']
+
+
+def _close(a, b, rtol=1e-6, atol=1e-6):
+  a, b = np.asarray(a, np.float64), np.asarray(b, np.float64)
+  return bool(a.shape == b.shape and np.all(np.abs(a - b) <= atol + rtol * np.abs(b)))
+
+
+def run_X(case):
+  import jax
+  import jax.numpy as jnp
+  from fedjax.aggregators import walsh_hadamard as wh
+  sub, key = case['sub'], jax.random.PRNGKey(case['key'])
+  chk = {}
+
+  def guard(name, f):
+    try:
+      chk[name] = bool(f())
+    except fw.Hang:
+      raise
+    except Exception as ex:  # pylint: disable=broad-except
+      chk[name] = False
+      chk[name + '!'] = f'{type(ex).__name__}: {str(ex)[:100]}'
+  xs = np.array([_nz(v) for v in lcg_vec(64, case['seed'])], np.float32)
+  xj = jnp.asarray(xs)
+  ref = ref_fwht(xs.astype(np.int64))
+  if sub == 'forms':
+    base = np.asarray(wh.walsh_hadamard_transform(xj))
+    guard('numpy-input', lambda: _close(wh.walsh_hadamard_transform(xs), base))
+    guard('numpy-int-block', lambda: _close(wh.walsh_hadamard_transform(xj, small_n=np.int64(4)), base))
+    guard('precision-str', lambda: _close(wh.walsh_hadamard_transform(xj, 8, 'highest'), base))
+    guard('precision-enum', lambda: _close(wh.walsh_hadamard_transform(xj, precision=jax.lax.Precision.HIGHEST), base))
+    x5 = xj[:37].reshape(37)
+    r, shp = wh.structured_rotation(x5, key)
+    guard('numpy-rotation-input', lambda: _close(wh.structured_rotation(xs[:37], key)[0], r))
+    guard('typed-key', lambda: _close(wh.structured_rotation(x5, jax.random.key(case['key']))[0], r))
+    guard('positional-args', lambda: _close(wh.inverse_structured_rotation(r, key, shp), xs[:37], atol=1e-4))
+    guard('numpy-shape', lambda: _close(wh.inverse_structured_rotation(r, key, np.asarray(shp)), xs[:37], atol=1e-4))
+    guard('keyword-args', lambda: _close(wh.inverse_structured_rotation(x=r, rng=key, original_shape=shp), xs[:37], atol=1e-4))
+    for nm, mk in (('list-tree', lambda a, b: [a, b]), ('tuple-tree', lambda a, b: (a, b)),
+                   ('nested-tree', lambda a, b: {'m': {'k': a}, 'n': [b]})):
+      def f(mk=mk):
+        tr = mk(xj[:5], xj[5:12].reshape(7, 1))
+        ro, sh = wh.structured_rotation_pytree(tr, key)
+        bk = wh.inverse_structured_rotation_pytree(ro, key, sh)
+        return (jax.tree_util.tree_structure(bk) == jax.tree_util.tree_structure(tr) and
+                all(_close(a, b, atol=1e-4) for a, b in zip(jax.tree_util.tree_leaves(bk), jax.tree_util.tree_leaves(tr))))
+      guard(nm, f)
+  elif sub == 'boundary':
+    for size in (127, 128, 129, 1, 2):
+      def f(size=size):
+        x = jnp.asarray(np.resize(xs, size))
+        r, sh = wh.structured_rotation(x, key)
+        d = 1 << max(0, (size - 1).bit_length())
+        b = wh.inverse_structured_rotation(r, key, sh)
+        return (r.shape == (d,) and _close(np.sum(np.asarray(r, np.float64) ** 2), np.sum(np.asarray(x, np.float64) ** 2), rtol=1e-4)
+                and _close(b, x, atol=1e-4))
+      guard(f'size-{size}', f)
+    def zeros():
+      r, sh = wh.structured_rotation(jnp.zeros((3, 2)), key)
+      b = wh.inverse_structured_rotation(r, key, sh)
+      return bool(np.all(np.asarray(r) == 0) and np.all(np.asarray(b) == 0) and b.shape == (3, 2))
+    guard('all-zero-input', zeros)
+    guard('zero-vector-transform', lambda: bool(np.all(np.asarray(wh.walsh_hadamard_transform(jnp.zeros(16))) == 0)))
+    guard('empty-tree', lambda: (lambda r: r[0] == {} and r[1] == {} and wh.inverse_structured_rotation_pytree({}, key, {}) == {})(
+        wh.structured_rotation_pytree({}, key)))
+    def single():
+      ro, sh = wh.structured_rotation_pytree({'only': xj[:9]}, key)
+      return _close(wh.inverse_structured_rotation_pytree(ro, key, sh)['only'], xs[:9], atol=1e-4)
+    guard('single-leaf-tree', single)
+    for n, b in ((8, 8), (8, 16), (16, 8), (1, 2), (2, 2)):
+      guard(f'n{n}-block{b}', lambda n=n, b=b: _as_ints(wh.walsh_hadamard_transform(xj[:n], small_n=b))[0] ==
+            [int(v) for v in ref_fwht(xs[:n].astype(np.int64))])
+  elif sub == 'reuse':
+    first = np.asarray(wh.walsh_hadamard_transform(xj, small_n=4))
+    kept = wh.walsh_hadamard_transform(xj, small_n=4)
+    for b in (16, 2, None, 8, 64):
+      wh.walsh_hadamard_transform(xj[:32], small_n=b) if b else wh.walsh_hadamard_transform(xj[:32])
+      wh.walsh_hadamard_transform(xj, small_n=b) if b else wh.walsh_hadamard_transform(xj)
+    guard('same-call-later', lambda: _close(wh.walsh_hadamard_transform(xj, small_n=4), first, 0, 0))
+    guard('kept-result-unchanged', lambda: _close(kept, first, 0, 0) and _as_ints(kept)[0] == [int(v) for v in ref])
+    k2 = jax.random.PRNGKey(case['key'] + 1)
+    xin = np.array(xs[:21])
+    ra, sa = wh.structured_rotation(xin, key)
+    ra0 = np.asarray(ra).copy()
+    rb, sb = wh.structured_rotation(xin, k2)
+    ra2, _ = wh.structured_rotation(xin, key)
+    guard('key-A-B-A', lambda: _close(ra2, ra0, 0, 0) and _close(ra, ra0, 0, 0))
+    guard('inverse-after-other-key', lambda: _close(wh.inverse_structured_rotation(ra, key, sa), xin, atol=1e-4) and
+          _close(wh.inverse_structured_rotation(rb, k2, sb), xin, atol=1e-4))
+    guard('numpy-input-unchanged', lambda: bool(np.array_equal(xin, xs[:21])))
+    leaves = {'a': xj[:5], 'b': {'c': xj[5:11]}}
+    ids = [id(l) for l in jax.tree_util.tree_leaves(leaves)]
+    ro, sh = wh.structured_rotation_pytree(leaves, key)
+    bk = wh.inverse_structured_rotation_pytree(ro, key, sh)
+    guard('tree-container-unchanged', lambda: list(leaves) == ['a', 'b'] and list(leaves['b']) == ['c'] and
+          [id(l) for l in jax.tree_util.tree_leaves(leaves)] == ids and _close(leaves['a'], xs[:5], 0, 0))
+    guard('result-not-aliasing-input', lambda: all(o is not i for o in jax.tree_util.tree_leaves(ro) + jax.tree_util.tree_leaves(bk)
+                                                   for i in jax.tree_util.tree_leaves(leaves)))
+    def size1():
+      one = jnp.asarray([3.0])
+      r, s1 = wh.structured_rotation(one, key)
+      b = wh.inverse_structured_rotation(r, key, s1)
+      return r is not one and b is not one and float(one[0]) == 3.0 and _close(b, [3.0], atol=1e-5)
+    guard('size-1-not-aliased', size1)
+  elif sub == 'interleave':
+    ta = {'p': xj[:10], 'q': xj[10:13]}
+    tb = [xj[20:36].reshape(4, 4), xj[40:41]]
+    k2 = jax.random.PRNGKey(case['key'] + 5)
+    ra, sa = wh.structured_rotation_pytree(ta, key)
+    rb, sb = wh.structured_rotation_pytree(tb, k2)
+    ba = wh.inverse_structured_rotation_pytree(ra, key, sa)
+    bb = wh.inverse_structured_rotation_pytree(rb, k2, sb)
+    guard('tree-A-restored', lambda: all(_close(a, b, atol=1e-4) for a, b in zip(jax.tree_util.tree_leaves(ba), jax.tree_util.tree_leaves(ta))))
+    guard('tree-B-restored', lambda: all(_close(a, b, atol=1e-4) for a, b in zip(jax.tree_util.tree_leaves(bb), jax.tree_util.tree_leaves(tb))))
+    guard('rotation-A-again', lambda: all(_close(a, b, 0, 0) for a, b in zip(
+        jax.tree_util.tree_leaves(wh.structured_rotation_pytree(ta, key)[0]), jax.tree_util.tree_leaves(ra))))
+  elif sub == 'dtypes':
+    big = np.array([2 ** 24 + 1, 3, -5, 7, 2 ** 25 + 3, -1, 0, 9], np.int32)
+    guard('int32-exact-beyond-2^24', lambda: [int(v) for v in np.asarray(wh.walsh_hadamard_transform(jnp.asarray(big)))] ==
+          [int(v) for v in ref_fwht(big.astype(np.int64))])
+    guard('int32-dtype-kept', lambda: wh.walsh_hadamard_transform(jnp.asarray(big)).dtype == jnp.int32)
+    for dt, tol in ((jnp.float16, 2e-3), (jnp.bfloat16, 2e-2)):
+      guard(f'{dt.__name__}-transform', lambda dt=dt, tol=tol: _close(
+          np.asarray(wh.walsh_hadamard_transform(xj[:16].astype(dt))).astype(np.float64), ref_fwht(xs[:16].astype(np.float64)),
+          rtol=tol, atol=tol * 64))
+    for dt, tol in ((jnp.int32, 1e-5), (jnp.float16, 5e-3), (jnp.bfloat16, 4e-2)):
+      def f(dt=dt, tol=tol):
+        x = jnp.asarray(xs[:13]).astype(dt).reshape(13)
+        r, sh = wh.structured_rotation(x, key)
+        b = wh.inverse_structured_rotation(r, key, sh)
+        n_in = float(np.sum(xs[:13].astype(np.float64) ** 2))
+        n_out = float(np.sum(np.asarray(r).astype(np.float64) ** 2))
+        return (abs(n_out - n_in) <= 4 * tol * n_in and
+                _close(np.asarray(b).astype(np.float64), xs[:13], rtol=0, atol=8 * tol * float(np.max(np.abs(xs[:13])))))
+      guard(f'{dt.__name__}-rotation', f)
+    for dt in (jnp.int32, jnp.float16):
+      guard(f'hadamard-matrix-{dt.__name__}', lambda dt=dt: (lambda m: m.dtype == dt and
+            [int(v) for v in np.asarray(m).astype(np.int64).reshape(-1)] == [int(v) for v in ref_hadamard(8).reshape(-1)])(wh.hadamard_matrix(8, dt)))
+  elif sub == 'contexts':
+    base = np.asarray(wh.walsh_hadamard_transform(xj, small_n=8))
+    def nojit():
+      with jax.disable_jit():
+        return _close(wh.walsh_hadamard_transform(xj, small_n=8), base, 0, 0)
+    guard('transform-disable-jit', nojit)
+    guard('transform-vmap', lambda: _close(jax.vmap(lambda v: wh.walsh_hadamard_transform(v, small_n=8))(jnp.stack([xj, 2 * xj]))[1], 2 * base, 0, 0))
+    guard('transform-inside-jit', lambda: _close(jax.jit(lambda v: wh.walsh_hadamard_transform(v + 0, small_n=8))(xj), base, 0, 0))
+    x7 = xj[:35].reshape(5, 7)
+    r, sh = wh.structured_rotation(x7, key)
+    def rot_nojit():
+      with jax.disable_jit():
+        r2, sh2 = wh.structured_rotation(x7, key)
+        b2 = wh.inverse_structured_rotation(r2, key, sh2)
+      return _close(r2, r, 1e-6, 1e-6) and _close(b2, x7, atol=1e-4)
+    guard('rotation-disable-jit', rot_nojit)
+    guard('rotation-inside-jit', lambda: _close(jax.jit(lambda v, k: wh.structured_rotation(v, k)[0])(x7, key), r, 1e-6, 1e-6))
+    guard('tree-rotation-inside-jit', lambda: _close(jax.jit(lambda t, k: wh.structured_rotation_pytree(t, k)[0])({'a': x7}, key)['a'],
+                                                       wh.structured_rotation_pytree({'a': x7}, key)[0]['a'], 1e-6, 1e-6))
+  return {'err': None, 'checks': chk}
+
+
 def run(case):
-  return {'T': run_T, 'H': run_H, 'R': run_R, 'B': run_B, 'P': run_P}[case['kind']](case)
+  return {'X': run_X, 'T': run_T, 'H': run_H, 'R': run_R, 'B': run_B, 'P': run_P}[case['kind']](case)
 
 
 # --------------------------------------------------------------------------
@@ -511,6 +680,12 @@ def oracle(case, obs):
       out.append(('involution', f'W(Wx) != n x (max error {obs["invol_err"]})'))
     if obs.get('linear_ok') is False:
       out.append(('linearity', 'W(2x+3z) != 2Wx + 3Wz'))
+    return out
+  if kind == 'X':
+    for name, ok in sorted(obs['checks'].items()):
+      if name.endswith('!') or ok:
+        continue
+      out.append((f'x.{case["sub"]}.{name}', f'{case["sub"]} / {name} failed {obs["checks"].get(name + "!", "")}'))
     return out
   if kind == 'H':
     if obs['err'] is not None or not obs['matches']:
@@ -579,6 +754,8 @@ def _robs(rot, rec_shape, back, back_shape, inv, inv_shape):
 
 def encode(case, obs):
   kind = case['kind']
+  if kind == 'X':
+    return None
   if kind == 'T':
     v, n = case['vec'], case['n']
     if 'fseed' in v:
@@ -634,6 +811,8 @@ def describe(case, obs):
             'vec': sorted(case['vec'])[0], 'result': obs.get('err') or 'ok'}
   if case['kind'] in ('R', 'B'):
     return {'kind': case['kind'], 'ndim': len(case['shape'])}
+  if case['kind'] == 'X':
+    return {'kind': 'X.' + case['sub']}
   return {'kind': case['kind']}
 
 
